@@ -88,6 +88,17 @@ CLAIMED['C01'] = {
             're-derived -- the flat rule is trusted as the statement of the rule.',
     'technique': 'bounded native execution of an executable postcondition of the generated close on emitted probe modules (labelled bounded)',
 }
+CLAIMED['C02'] = {
+    'category': 'exploration',
+    'text': 'Bounded, on the modules the compiler (built from the current tree) emits for the probe theories: after every close() in every explored history the model is isomorphic, by a map that '
+            'fixes every element the caller created, to the least model computed by an independent reference -- a naive chase of the program\'s flat rules over the asserted facts and equalities '
+            '(plain tuple sets + union-find, no indices, no ages, written for this check). Hence no tuple, equality or element exists that the rules do not force, and no second element exists for '
+            'a term that is already defined (and nothing is missing). The rules are the flat rules the compiler prints above each emitted rule function, so the flattening front end is not '
+            'covered. Neither verifier can take the generated loop or the rule functions; this is the bounded stand-in.',
+    'design_ref': '§6 C02',
+    'note': 'Bounded stand-in, labelled exploration, never counted as proved. Programs are sampled (the probes).',
+    'technique': 'bounded native execution of the generated close against an independent naive chase of the flat rules (labelled bounded)',
+}
 CLAIMED['C03'] = {
     'category': 'exploration',
     'text': 'Bounded, on the modules the compiler (built from the current tree) emits for the probe theories: the property is decided as a postcondition of the generated close() -- '
@@ -207,7 +218,6 @@ CLAIMED['C20'] = {
 }
 
 NOT_APPLICABLE = {
-    'C02': 'needs the denotation of generated rule functions and define_*; not expressible as a contract within reach (DESIGN §6)',
     'C10': 'the static checks are ~300 eqlog rules interpreted by generated code; there is no Rust function whose contract is the reference semantics',
     'C12': 'state is a directory tree mutated through std::fs and a rustc child process, quantified over crash points; every callee is external',
     'C17': 'recompute_model_indices is generated loop code over iter_restrictions_mut/LazyCell/mapped; its runtime ingredients are covered under C08/C18',
